@@ -228,8 +228,16 @@ namespace adm {
 
   void IdReassigner::reassignAudioTrackUidIds() {
     auto audioTrackUids = document->getElements<AudioTrackUid>();
-    undefineIds(audioTrackUids.begin(), audioTrackUids.end());
+    // silent audioTrackUids (ID zero) keep their ID
     for (auto audioTrackUid : audioTrackUids) {
+      if (!audioTrackUid->isSilent()) {
+        audioTrackUid->set(AudioTrackUidId());
+      }
+    }
+    for (auto audioTrackUid : audioTrackUids) {
+      if (audioTrackUid->isSilent()) {
+        continue;
+      }
       audioTrackUid->set(idIssuer.issueAudioTrackUidId());
       auto audioChannelFormat =
           audioTrackUid->getReference<adm::AudioChannelFormat>();
